@@ -514,12 +514,113 @@ class Runner:
 
 
 # ---------------------------------------------------------------------------------------------
-# the plain rule-by-rule semantics (independent of the tree; uses the real filter handlers)
+# the plain rule-by-rule semantics.  Independent of the tree AND of the repository's filter
+# factory: the built-in filters are re-stated here from their documentation, user regular
+# expressions are compiled here from the rule's own text.
+
+def ref_plain(s, nxt=None):
+    j = s.find('/')
+    j = len(s) if j < 0 else j
+    return s[:j], j
+
+
+def _digits_end(s, i):
+    j = i
+    while j < len(s) and s[j].isdecimal():      # \d: Unicode decimal digits
+        j += 1
+    return j
+
+
+def ref_int(s, nxt=None):
+    """optional '-', then digits; value int(text)"""
+    i = 1 if s[:1] == '-' else 0
+    j = _digits_end(s, i)
+    if j == i:
+        return None
+    return int(s[:j]), j
+
+
+def ref_float(s, nxt=None):
+    """optional '-', digits, optionally '.' and digits; value float(text)"""
+    i = 1 if s[:1] == '-' else 0
+    j = _digits_end(s, i)
+    if j == i:
+        return None
+    if s[j:j + 1] == '.':
+        k = _digits_end(s, j + 1)
+        if k > j + 1:
+            j = k
+    return float(s[:j]), j
+
+
+def ref_path(s, nxt):
+    """followed by literal text L in the rule: the longest non-empty prefix of the remaining path
+    (not running over a newline) that is followed by L taken literally, matched once; at the end
+    of the rule: the whole non-empty rest"""
+    nl = s.find('\n')
+    maxk = len(s) if nl < 0 else nl
+    if nxt == '':
+        if maxk == len(s) or maxk == len(s) - 1:
+            return (s[:maxk], maxk) if maxk > 0 else None
+        return None
+    for k in range(maxk, 0, -1):
+        if s.startswith(nxt, k):
+            return s[:k], k
+    return None
+
+
+def make_ref(flt, args, nxt):
+    """the reference handler of one wildcard: text -> None | 'skip' | (value, consumed).
+    `nxt` = the literal text that follows in the rule ('' at the end, None before a wildcard)."""
+    if not flt:
+        return ref_plain
+    if flt == 'int':
+        return ref_int
+    if flt == 'float':
+        return ref_float
+    if flt == 'path':
+        if nxt is None:
+            return lambda s, n=None: 'skip'       # `path` directly before another wildcard: undocumented
+        return lambda s, n=None: ref_path(s, nxt)
+    if flt == 're' and args is not None:
+        rx = re.compile(args)
+
+        def f(s, n=None):
+            m = rx.match(s)
+            return None if m is None else (m.group(), m.end())
+        return f
+    return lambda s, n=None: 'skip'               # rex (selectors), unknown
+
+
+def rule_spec(rule):
+    """(pattern string, reference handlers, parameter names) of a rule text.  Only the syntax
+    (where literal text, names, filter names and arguments are) is taken from the repository's
+    parser; pattern, names and filter semantics are rebuilt here."""
+    from ombott.router.radirouter import Route
+    parts = list(Route.parser.iter_parse(rule[1:]))
+    pattern, funcs, params = '', [], []
+    anon = 0
+    for i, (part, param, flt, args, sel) in enumerate(parts):
+        if part:
+            pattern += part
+            continue
+        pattern += TOKEN + (sel or '')
+        if i + 1 < len(parts):
+            nxt = parts[i + 1][0]            # None when a wildcard follows
+        else:
+            nxt = ''
+        funcs.append(make_ref(flt, args, nxt))
+        if param:
+            params.append(param)
+        else:
+            params.append('anon-%d' % anon)
+            anon += 1
+    return pattern, funcs, params
+
 
 def match_rule(pattern, filters, path):
     """left to right: literal text must be next; a wildcard needs something left and takes what
-    its filter (or `up to the next /`) says, once.  Returns the values or None.
-    'skip' when a filter answers with a selector (rex: outside the plain semantics)."""
+    its filter says, once.  Returns the values, None, or 'skip' (outside the plain semantics)."""
     i = 0
     fi = 0
     vals = []
@@ -534,19 +635,13 @@ def match_rule(pattern, filters, path):
             fi += 1
             if i >= len(path):
                 return None
-            if f is None:
-                j = path.find('/', i)
-                j = len(path) if j < 0 else j
-                vals.append(path[i:j])
-                i = j
-            else:
-                v, n, sel = f(path[i:])
-                if sel is not None:
-                    return 'skip'
-                if v is None:
-                    return None
-                vals.append(v)
-                i += n
+            r = f(path[i:])
+            if r == 'skip':
+                return 'skip'
+            if r is None:
+                return None
+            vals.append(r[0])
+            i += r[1]
     return vals if i == len(path) else None
 
 
